@@ -4,7 +4,7 @@
    H qdd + N = ID(qdd), M^-1 tau and the L^T L factorisation are decided by correspondence and the L3 oracle
    (H_spec from the first-principles inverse dynamics, residuals of the factorisation and of the solves). *)
 From Coq Require Import List Arith.
-From RV Require Import Scalar Laws ListArr ModelDef JointDef KinDef LinDef DynDef ConsDef C14Thm WsLemmas KinThm DynThm NleThm EnergyThm SymThm.
+From RV Require Import Scalar Laws LinAlg3 Spatial ListArr ModelDef JointDef KinDef LinDef DynDef ConsDef C14Thm WsLemmas KinThm DynThm NleThm C04Thm UtilDef EnergyThm SymThm CrbaThm CrbaThm2.
 Section P.
   Context {T : Type} (O : Ops T) {FL : FieldLaws O}.
   Theorem C03_nonlinear_effects_is_inverse_dynamics_at_zero_acceleration
@@ -51,8 +51,31 @@ Section P2.
       mget (o0 O) (snd (crba O M (ukc_q O M w0 q) q (zerosM O n n) false)) i j =
       mget (o0 O) (snd (crba O M (ukc_q O M w0 q) q (zerosM O n n) false)) j i.
   Proof. intros W C Hg. exact (crba_symmetric_after_position_update O M W C w0 q Hg). Qed.
+  (* half qd^T H qd is the kinetic energy: for the matrix written by CompositeRigidBodyAlgorithm (flag cleared after
+     the position update, from any well-formed workspace) and EVERY generalized velocity, the quadratic form is the
+     sum over the bodies of v_i . (I_i v_i) with v the velocity recursion of C06 ... *)
+  Theorem C03_inertia_matrix_quadratic_form_is_twice_kinetic_energy (M : @Model T) q qd (w0 : @WS T) : WF M ->
+    (forall i j, 0 < i < nbodies M -> 0 < j < nbodies M -> i <> j ->
+       is_custom (jkind (getJ M i)) = true -> is_custom (jkind (getJ M j)) = true -> jcust (getJ M i) <> jcust (getJ M j)) ->
+    (forall i, 0 < i < nbodies M -> joint_wf O M q i) -> length qd = dof_count M -> Good O M w0 ->
+    let n := dof_count M in
+    let H := snd (crba O M (ukc_q O M w0 q) q (zerosM O n n) false) in
+    odot O qd (mvmul O H qd) =
+    ComThm.bsum O (fun j => svdot O (vF O M q qd j) (rbi_mulv O (getI O M j) (vF O M q qd j))) (nbodies M).
+  Proof. intros W C J L G. exact (crba_quadratic_form_is_twice_kinetic_energy O M q W C J qd L w0 G). Qed.
+  (* ... and half of it is what Utils::CalcKineticEnergy returns (flag set, any other well-formed workspace) *)
+  Theorem C03_half_qd_H_qd_is_CalcKineticEnergy (M : @Model T) q qd (w0 w1 : @WS T) : WF M ->
+    (forall i j, 0 < i < nbodies M -> 0 < j < nbodies M -> i <> j ->
+       is_custom (jkind (getJ M i)) = true -> is_custom (jkind (getJ M j)) = true -> jcust (getJ M i) <> jcust (getJ M j)) ->
+    (forall i, 0 < i < nbodies M -> joint_wf O M q i) -> length qd = dof_count M -> Good O M w0 -> Good O M w1 ->
+    let n := dof_count M in
+    let H := snd (crba O M (ukc_q O M w0 q) q (zerosM O n n) false) in
+    omul O (ohalf O) (odot O qd (mvmul O H qd)) = snd (calc_kinetic_energy O M w1 q qd true).
+  Proof. intros W C J L G0 G1. exact (crba_half_quadratic_form_is_kinetic_energy O M q W C J qd L w0 w1 G0 G1). Qed.
 End P2.
 Print Assumptions C03_nonlinear_effects_is_inverse_dynamics_at_zero_acceleration.
 Print Assumptions C03_nonlinear_effects_outward_pass.
 Print Assumptions C03_inertia_matrix_symmetric.
 Print Assumptions C03_inertia_matrix_symmetric_after_position_update.
+Print Assumptions C03_inertia_matrix_quadratic_form_is_twice_kinetic_energy.
+Print Assumptions C03_half_qd_H_qd_is_CalcKineticEnergy.
